@@ -159,6 +159,61 @@ def baseline_task(args):
     return {"isa": isa_name, "mode": mode, "base": out}
 
 
+def new_object(pristine):
+    """one disassembler object for one history: a shallow copy of the never-used module-level object with
+    its own list of specification trees (the trees themselves are shared, they are read-only)"""
+    d = copy.copy(pristine)
+    d.specs = list(d.specs)
+    return d
+
+
+def switch_task(args):
+    """mode-switch histories (C11: 'a function of the bytes and the selected decode mode only'):
+    (isa, {mode: pool with fresh-process baselines taken under that mode}, seed, nrandom) -> traces.
+    Systematic part: every path of 2 and of 3 modes; at each step the decode-mode globals are set and a few
+    exemplars of that mode are decoded on the ONE object.  Random part: long walks over (mode, input)."""
+    import itertools
+    isa_name, pools, seed, nrandom = args
+    D.watchdog_init()
+    D.mute_stdout()
+    modes = sorted(pools)
+    isa = D.Isa(isa_name, modes[0])
+    D.quiet()
+    rng = random.Random("c11switch/%s/%d" % (isa_name, seed))
+    pristine = isa.dis
+    probes = {}
+    for m in modes:
+        good = [e for e in pools[m] if e["cls"] in ("valid", "prefix_valid")]
+        bad = [e for e in pools[m] if e["cls"] in ("invalid", "truncated", "rejecting")]
+        rng.shuffle(good)
+        rng.shuffle(bad)
+        probes[m] = good[:3] + bad[:1]
+    traces = []
+
+    def run(path, picks):
+        dis = new_object(pristine)
+        ev = []
+        for m, xs in zip(path, picks):
+            isa.set_mode(m)
+            for x in xs:
+                e = _call(isa, dis, x["in"], x["base"])
+                e["cls"] = x["cls"]
+                e["mode"] = m
+                ev.append(e)
+        traces.append({"kind": "c11", "m": "%s/%s" % (isa_name, "+".join(modes)), "src": "S",
+                       "path": list(path), "ev": ev})
+
+    for n in (2, 3):
+        for path in itertools.product(modes, repeat=n):
+            run(path, [probes[m] for m in path])
+    for _ in range(nrandom):
+        path = [rng.choice(modes) for _ in range(12)]
+        run(path, [[rng.choice(pools[m])] for m in path])
+    isa.set_mode(modes[0])
+    return {"isa": isa_name, "mode": "+".join(modes), "traces": traces, "skipped": 0,
+            "pristine_touched": isa.pending(pristine) is not None}
+
+
 def _call(isa, dis, hx, base):
     i, o = D.decode(isa, bytes.fromhex(hx), dis=dis, isolate=False)
     p = isa.pending(dis)
@@ -183,7 +238,7 @@ def replay_task(args):
         if any(c["cls"] not in bycls for c in h):
             skipped += 1
             continue
-        dis = copy.copy(pristine)
+        dis = new_object(pristine)
         ev = []
         for c in h:
             x = rng.choice(bycls[c["cls"]])
@@ -194,7 +249,7 @@ def replay_task(args):
             ev.append(e)
         traces.append({"kind": "c11", "m": "%s/%s" % (isa_name, mode), "src": "G", "ev": ev})
     for _ in range(nseq):
-        dis = copy.copy(pristine)
+        dis = new_object(pristine)
         ev = []
         for _ in range(seqlen):
             x = rng.choice(pool)
@@ -209,15 +264,19 @@ def replay_task(args):
 def replay_history(args):
     """re-execute a recorded call history on ONE object of the current tree (./check C11 --replay);
     `bases` are fresh-process outcomes computed by baseline_task for the same inputs"""
-    isa_name, mode, inputs, classes, bases = args
+    isa_name, mode, inputs, classes, bases, modes = args
     D.watchdog_init()
     D.mute_stdout()
-    isa = D.Isa(isa_name, mode)
+    isa = D.Isa(isa_name, modes[0] if modes else mode)
     D.quiet()
-    dis = copy.copy(isa.dis)
+    dis = new_object(isa.dis)
     ev = []
-    for hx, c, b in zip(inputs, classes, bases):
+    for k, (hx, c, b) in enumerate(zip(inputs, classes, bases)):
+        if modes:
+            isa.set_mode(modes[k])
         e = _call(isa, dis, hx, b)
         e["cls"] = c
+        if modes:
+            e["mode"] = modes[k]
         ev.append(e)
     return {"kind": "c11", "m": "%s/%s" % (isa_name, mode), "src": "replay", "ev": ev}
